@@ -39,7 +39,7 @@ type jobSpec struct {
 	Clients  int    `json:"clients,omitempty"`
 	Ops      int    `json:"ops_per_client,omitempty"`
 	Blobs    int    `json:"blobs,omitempty"`
-	Mode     string `json:"mode,omitempty"`      // "" | packfile | compaction
+	Mode     string `json:"mode,omitempty"`      // "" | packfile | compaction | ackearly | queue | cachemiss | readonly
 	PackSafe bool   `json:"pack_safe,omitempty"` // packfile mode: the file's blobs are never removed
 	// Owners: that many clients own OwnBlobs blobs each which no other client writes; the owner
 	// runs receive / read / remove / read sequences on them (every read directly follows the
@@ -66,6 +66,9 @@ type jobSpec struct {
 	// Tail: after the main phase the doomed permanodes are delivered delete claim first, one after
 	// the other, while the sorted permanode listings are read (index_tail.go)
 	Tail bool `json:"tail,omitempty"`
+	// Content: at the very end permanodes with camliContent claims are delivered to the quiet index
+	// and several readers at once ask for their times, nothing being written (index_content.go)
+	Content bool `json:"content,omitempty"`
 }
 
 type violRec struct {
@@ -118,7 +121,10 @@ type call struct {
 	Open    bool     `json:"open,omitempty"` // panicked: never returned
 	Present []bool   `json:"present,omitempty"`
 	Enum    []string `json:"enum,omitempty"`
-	bad     []violRec
+	// StatBlobs calls: callbacks made, distinct goroutines among the first four callbacks
+	StatCB int `json:"stat_callbacks,omitempty"`
+	StatGs int `json:"stat_goroutines,omitempty"`
+	bad    []violRec
 	// lead (cachemiss mode): a fetch of an own blob that only the origin holds; the next call of the
 	// script (the remove of the same blob) follows it directly
 	lead bool
@@ -341,35 +347,16 @@ func (sr *storeRun) exec(c *call) {
 			refs[i] = sr.keys[k].Ref
 			pos[refs[i]] = i
 		}
-		present := make([]bool, len(refs))
-		var mu sync.Mutex
-		var bad []string
-		err := sr.S.StatBlobs(ctx, refs, func(sb blob.SizedRef) error {
-			mu.Lock()
-			defer mu.Unlock()
-			i, ok := pos[sb.Ref]
-			switch {
-			case !ok:
-				bad = append(bad, fmt.Sprintf("%v was not asked for", sb.Ref))
-			case present[i]:
-				bad = append(bad, fmt.Sprintf("%v reported twice", sb.Ref))
-			default:
-				present[i] = true
-				if int(sb.Size) != len(sr.keys[c.Keys[i]].Data) {
-					bad = append(bad, fmt.Sprintf("%v reported with size %d, blob has %d bytes", sb.Ref, sb.Size, len(sr.keys[c.Keys[i]].Data)))
-				}
-			}
-			return nil
-		})
+		// the callback is deliberately NOT synchronised (statSink): BlobStatter says fn is called in serial
+		sink := newStatSink(sr, c, pos)
+		err := sr.S.StatBlobs(ctx, refs, sink.add)
 		c.Ret = sr.clk.now()
 		if err != nil {
 			c.Err = err.Error()
 		} else {
-			c.Present = present
+			c.Present = sink.present
 		}
-		if len(bad) > 0 {
-			sr.report("stat-result/"+sr.label, fmt.Sprintf("[%s] StatBlobs of %d refs: %s", sr.label, len(refs), strings.Join(bad, "; ")), c)
-		}
+		sink.conclude(len(refs))
 	case "enumerate", "audit-enumerate":
 		ch := make(chan blob.SizedRef, 32)
 		errc := make(chan error, 1)
@@ -595,7 +582,11 @@ func runStoreHistory(root string, job jobSpec) *histResult {
 	initial := map[int]bool{}
 	if b.Preload != nil {
 		var pre []sto.Blob
-		for i := 0; i < sr.nHot; i += 2 {
+		for i := 0; i < sr.nHot; i++ {
+			// a read-only store starts with three blobs out of four, the others with every other one
+			if (job.Mode == "readonly" && i%4 == 3) || (job.Mode != "readonly" && i%2 == 1) {
+				continue
+			}
 			pre = append(pre, sr.keys[i])
 			initial[i] = true
 		}
@@ -641,6 +632,14 @@ func runStoreHistory(root string, job jobSpec) *histResult {
 		res.Events = append(res.Events, "own-blobs-preloaded-below-the-cache")
 	}
 
+	if job.Mode == "readonly" && (b.Preload == nil || job.Owners > 0) {
+		res.Inconclusive = append(res.Inconclusive, fmt.Sprintf("readonly mode needs a pre-loadable store and no owners, %s", job.Spec))
+		return res
+	}
+	if !b.Caps.Receive && job.Mode != "readonly" {
+		res.Inconclusive = append(res.Inconclusive, fmt.Sprintf("%s does not accept writes: it needs the readonly mode", job.Spec))
+		return res
+	}
 	canRemove := b.Caps.Remove
 	// cachemiss: the shared blobs are never removed either - the races of proxycache's receive/fetch/remove on
 	// one blob are the business of the random proxycache plans; here only the owners remove, their own blobs
@@ -661,6 +660,9 @@ func runStoreHistory(root string, job jobSpec) *histResult {
 		}
 		c := &call{Client: client}
 		k := crng.Intn(100)
+		if job.Mode == "readonly" {
+			k = 26 + crng.Intn(52) // fetch, subfetch, stat, batched stat, enumerate
+		}
 		switch {
 		case k < 26:
 			c.Op, c.Keys = "receive", []int{pick()}
@@ -929,6 +931,15 @@ func (sr *storeRun) judge(calls [][]*call, initial map[int]bool) {
 		perKey[k] = append(perKey[k], kop{Client: -1, Kind: "init", W: 1, Call: 0, Ret: 0})
 	}
 	errSeen := map[string]bool{}
+	statMulti, statGs := false, false
+	defer func() {
+		if statMulti {
+			res.Events = append(res.Events, "stat-several-callbacks-in-one-call")
+		}
+		if statGs {
+			res.Events = append(res.Events, "stat-callbacks-from-several-goroutines")
+		}
+	}()
 	for _, c := range flat {
 		for _, bad := range c.bad {
 			var ctxt []string
@@ -963,6 +974,14 @@ func (sr *storeRun) judge(calls [][]*call, initial map[int]bool) {
 			res.viol(bad.Sig, what, map[string]any{"case_id": sr.job.ID, "job": sr.job, "call": c, "overlapping_writes": ctxt})
 		}
 		res.Ops[c.Op]++
+		if c.StatCB >= 2 {
+			res.Ops["stat-call-with-several-callbacks"]++
+			statMulti = true
+		}
+		if c.StatGs >= 2 {
+			res.Ops["stat-call-callbacks-from-several-goroutines"]++
+			statGs = true
+		}
 		ret := c.Ret
 		unknown := false
 		if c.Open {
